@@ -146,6 +146,25 @@ CHECKS = {
    design_ref='DESIGN.md par.5 C14',
    note='gpg --clearsign is a binary (its exit status and output stand in); signed flag per '
         'model Manifest node'),
+ 'C11': dict(
+   text='The real UpdateCommand with --incremental: last_mtime equals the UTC epoch of the '
+        'TIMESTAMP for every local UTC offset (symbolic seconds; counterexamples replayed under '
+        'a real TZ); the real update_entry_for_path with and without last_mtime gives the same '
+        'entry under the statement\'s hypothesis and never skips a size change; the TIMESTAMP '
+        'written by update/create is the instant taken before the scan (clock stub with '
+        'symbolic steps).',
+   design_ref='DESIGN.md par.5 C11',
+   note='datetime.timestamp() modelled by its documented contract; per-file skip rule is the '
+        'only consumer of last_mtime, tree-level equality follows with C03'),
+ 'C17': dict(
+   text='The real hash_file on an abstract file (offset/length blocks) with recording hash '
+        'objects: for symbolic length, size hint and short-read schedule every hash object gets '
+        'the whole content in order exactly once and __size__ is the true length; '
+        'get_hash_by_name over a name vocabulary; get_file_metadata maps each of the ten '
+        'Manifest names to the value of its own algorithm for any requested subset.',
+   design_ref='DESIGN.md par.5 C17',
+   note='hashlib algorithms are C code; chunked path <= 3 chunks with <= 2 short reads; name '
+        'table compared with GLEP 59/74 as a constant'),
 }
 
 NOT_APPLICABLE = {
